@@ -15,6 +15,7 @@ struct Pat_ {
     methods: Vec<String>, // method names, e.g. "get_rng"
     fields: Vec<String>,  // field names, e.g. "stdout"
     macros: Vec<String>,  // macro names, e.g. "writeln"
+    idents: Vec<String>,  // plain identifier uses, e.g. "tca"
 }
 
 struct Scan<'a> {
@@ -80,6 +81,9 @@ impl<'a> Scan<'a> {
                             self.site("field", &name, id.span(), String::new(), "unparsed-macro");
                         }
                     }
+                    if self.pat.idents.contains(&name) && !prev_is_dot {
+                        self.site("ident", &name, id.span(), String::new(), "unparsed-macro");
+                    }
                     let next_is_bang = matches!(toks.get(i + 1), Some(TokenTree::Punct(p)) if p.as_char() == '!');
                     if next_is_bang && self.pat.macros.contains(&name) {
                         self.site("macro", &name, id.span(), String::new(), "unparsed-macro");
@@ -138,6 +142,15 @@ impl<'a, 'ast> Visit<'ast> for Scan<'a> {
         }
         visit::visit_expr_method_call(self, m);
     }
+    fn visit_expr_path(&mut self, p: &'ast ExprPath) {
+        if p.qself.is_none() && p.path.segments.len() == 1 {
+            let name = p.path.segments[0].ident.to_string();
+            if self.pat.idents.contains(&name) {
+                self.site("ident", &name, p.span(), String::new(), "expr");
+            }
+        }
+        visit::visit_expr_path(self, p);
+    }
     fn visit_expr_field(&mut self, f: &'ast ExprField) {
         if let Member::Named(id) = &f.member {
             let name = id.to_string();
@@ -182,6 +195,7 @@ pub fn run(root: &str, job: &Value, errors: &mut Vec<Value>) -> Value {
         methods: strs(&job["methods"]),
         fields: strs(&job["fields"]),
         macros: strs(&job["macros"]),
+        idents: strs(&job["idents"]),
     };
     let mut files: Vec<String> = vec![];
     fn walk(dir: &std::path::Path, root: &std::path::Path, out: &mut Vec<String>) {
